@@ -155,4 +155,7 @@ Section Dict.
   Definition dict_nonempty (d : dict) : bool := match d with [] => false | _ => true end.
 End Dict.
 
+(* warnings.warn(...) calls made by a function, in order *)
+Inductive pywarning := WUnusedModules (ids : list nat).   (* moclo.errors.UnusedModules: the object ids of the modules *)
+
 Definition is_none {A} (o : option A) : bool := match o with None => true | Some _ => false end.
